@@ -36,10 +36,14 @@ class SequenceAdapter(Adapter):
 
     @classmethod
     def items(cls, value, node):
-        if node is None or not isinstance(node, cls.node_type):
+        if (
+            node is None
+            or not isinstance(node, cls.node_type)
+            # star-expressions: the elements of the value do not correspond to nodes
+            or len(value) != len(node.elts)
+            or any(isinstance(e, ast.Starred) for e in node.elts)
+        ):
             return [Item(value=v, node=None) for v in value]
-
-        assert len(value) == len(node.elts)
 
         return [Item(value=v, node=n) for v, n in zip(value, node.elts)]
 
